@@ -405,6 +405,11 @@ impl FlatMaTree {
             return None;
         };
 
+        // The single-table fast paths run without previous channels; properties 16 and above need them.
+        if decision_prop >= 16 {
+            return None;
+        }
+
         let mut state: Option<(Predictor, i32, u32)> = None;
         let mut cluster_table = Vec::with_capacity(indices.len());
         for &index in &**indices {
